@@ -86,7 +86,7 @@ def check_model(model, x, y, rec, tags, what, check_T=True):
 @st.composite
 def generic_cases(draw, tier="quick"):
     hi = 6 if tier == "quick" else 10
-    backing = draw(st.sampled_from(["dense", "csr", "csc", "func"]))
+    backing = draw(st.sampled_from(["dense", "csr", "csc", "func", "func", "view"]))
     two_d = backing == "func" and draw(st.booleans())
     if two_d:
         dshape = [draw(st.integers(2, 3)), draw(st.integers(2, 3))]
@@ -97,13 +97,25 @@ def generic_cases(draw, tier="quick"):
     else:
         nf = draw(st.integers(1, hi))
         mf = draw(st.integers(1, hi))
+        sel = None
+        if backing == "view":
+            # a function pair whose forward returns a *view* of its input (restriction to a prefix / every second entry)
+            sel = draw(st.sampled_from(["prefix", "stride", "all"]))
+            mf = {"prefix": min(mf, nf), "stride": (nf + 1) // 2, "all": nf}[sel]
         kinds = gen.IDENTITY_LIKE_1D * 3 + ["kl", "step"]
         dom = draw(gen.geom1d_spec(nf, kinds))
         ran = draw(gen.geom1d_spec(mf, kinds))
     Amat = draw(gen.mat(mf, nf))
     x = draw(gen.vec(max(nf, 1)))
     y = draw(gen.vec(max(mf, 1)))
-    return {"backing": backing, "dom": dom, "ran": ran, "A": Amat, "x": x, "y": y}
+    c = {"backing": backing, "dom": dom, "ran": ran, "A": Amat, "x": x, "y": y,
+         # after the first round of checks one geometry is replaced by another one with the same function space
+         "regeom": draw(st.sampled_from([None, None, "range", "domain"]))}
+    if backing == "view":
+        c["sel"] = sel
+        idx = {"prefix": list(range(mf)), "stride": list(range(0, nf, 2)), "all": list(range(nf))}[sel]
+        c["A"] = [[1.0 if j == idx[i] else 0.0 for j in range(nf)] for i in range(mf)]
+    return c
 
 
 def build_generic(c):
@@ -120,6 +132,18 @@ def build_generic(c):
         return cuqi.model.LinearModel(sp.csc_matrix(Am), range_geometry=ran, domain_geometry=dom)
     dshape = tuple(c["dom"]["shape"]) if "shape" in c["dom"] else (c["dom"]["fun_dim"],)
     rshape = tuple(c["ran"]["shape"]) if "shape" in c["ran"] else (c["ran"]["fun_dim"],)
+    if b == "view":
+        n = dshape[0]
+        sl = {"prefix": slice(0, rshape[0]), "stride": slice(0, n, 2), "all": slice(0, n)}[c["sel"]]
+
+        def vfwd(X):
+            return np.asarray(X)[sl]          # a view of the caller's array, no copy
+
+        def vadj(Y):
+            out = np.zeros(n)
+            out[sl] = np.asarray(Y)
+            return out
+        return cuqi.model.LinearModel(vfwd, vadj, range_geometry=ran, domain_geometry=dom)
 
     def fwd(X):
         return (Am @ np.asarray(X).reshape(-1)).reshape(rshape)
@@ -134,7 +158,20 @@ def run_generic(c, rec):
             "dom": c["dom"]["kind"], "ran": c["ran"]["kind"],
             "dom_identity": gen.geom_is_identity_like(c["dom"]), "ran_identity": gen.geom_is_identity_like(c["ran"])}
     model = must(lambda: build_generic(c), "constructing LinearModel")
+    tags["view"] = c["backing"] == "view"
     check_model(model, c["x"] * 2, c["y"] * 2, rec, tags, "LinearModel")
+    which = c.get("regeom")
+    spec = c["ran"] if which == "range" else c["dom"]
+    if which and "fun_dim" in spec:
+        # replace one geometry by another with the same function space (the model object has been used, .T has been taken):
+        # every relation must hold again for the model as it is now
+        alt = {"kind": "discrete" if spec["kind"] != "discrete" else "cont1d", "fun_dim": spec["fun_dim"], "x0": 0.3, "h": 0.7}
+        setattr(model, "range_geometry" if which == "range" else "domain_geometry", gen.make_geometry(alt))
+        tags2 = dict(tags, regeom=which)
+        tags2["ran" if which == "range" else "dom"] = alt["kind"]
+        tags2["ran_identity" if which == "range" else "dom_identity"] = True
+        rec.begin(dict(c, _after_regeom=True))
+        check_model(model, c["x"] * 2, c["y"] * 2, rec, tags2, "LinearModel (after a geometry was re-assigned)")
 
 
 # ----------------------------------------------------------------------------- Deconvolution1D
